@@ -37,6 +37,23 @@ def run(ctx):
             al = lzma.compress(data, format=lzma.FORMAT_ALONE, filters=[{'id': lzma.FILTER_LZMA1, 'dict_size': 4096}])
             inputs.append((al, 'lzma')); inputs.append((xzgen.mutate(rng, al)[0], 'lzma')); inputs.append((al + rng.choice([b'\0', b'trailing garbage', al]), 'lzma'))
             lz = lz_member(rng, data); inputs.append((lz, 'lz')); inputs.append((lz + lz_member(rng, data[:50]) + b'trailing', 'lz'))
+        # valid files whose integrity check type liblzma cannot verify (a warning, exit status 2, for xz)
+        for cid in ((2, 7) if ctx.quick() else (2, 3, 5, 6, 7, 8, 9, 11, 12, 13, 14, 15)):
+            inputs.append((xzgen.stream([(xzgen.gen_data(rng, rng.randrange(1, 400)), [{'id': 'lzma2', 'dict_size': 4096}], {})], cid, rng), 'xz'))
+        # .lzma streams whose length is an exact multiple of xz's I/O buffer, alone and followed by trailing bytes (the tool
+        # probes for trailing data with one extra read exactly at such a boundary)
+        def lzma_of_size(target):
+            n = target - 30
+            for _try in range(400):
+                dat = bytes(rng.getrandbits(8) for _ in range(n))
+                c = lzma.compress(dat, format=lzma.FORMAT_ALONE, filters=[{'id': lzma.FILTER_LZMA1, 'dict_size': 1 << 16}])
+                if len(c) == target: return c
+                n += target - len(c)
+            return None
+        for mult in ((1, 2) if ctx.quick() else (1, 2, 3, 5)):
+            c = lzma_of_size(B * mult)
+            if c:
+                inputs.append((c, 'lzma')); inputs.append((c + b'X', 'lzma')); inputs.append((c + bytes(B), 'lzma')); inputs.append((c + c, 'lzma'))
         # the decoder xz itself selects for each format (coder.c): .lz -> lzma_lzip_decoder, else auto/stream/alone; always CONCATENATED
         lib = [None] * len(inputs); single = {}
         for kind, fm in ((2, ('xz', 'lzma')), (4, ('lz',))):
@@ -101,6 +118,20 @@ def run(ctx):
                     viol.append(dict(why='xz -dc %s on %s in one run: exit %d / %d bytes, but judged one at a time: exit %d / %d bytes' % (' '.join(extra), '+'.join(single[i][3] for i in pick), r.returncode, len(r.stdout), exp_rc, len(exp_out)),
                                      file=b''.join(open(single[i][2], 'rb').read() for i in pick).hex(), files=[open(single[i][2], 'rb').read().hex() for i in pick]))
             distinct.add(('multi', tuple(single[i][3] for i in pick), exp_rc))
+        warn = [i for i in keys if single[i][1] == 2]; errs = [i for i in keys if single[i][1] == 1]; good = [i for i in keys if single[i][1] == 0]
+        for _ in range(12 if ctx.quick() else 200):
+            if not warn or not errs: break
+            pick = [rng.choice(warn), rng.choice(errs)] + ([rng.choice(good)] if good and rng.random() < 0.5 else [])
+            rng.shuffle(pick)
+            for extra, exp_rc in (([], 1), (['-Q'], 1)):
+                r = sh([xz, '-dc'] + extra + [single[i][2] for i in pick]); n_eval += 1
+                if r.returncode != exp_rc:
+                    viol.append(dict(why='xz -dc %s on files that give exit %s when decoded one at a time: exit %d, expected %d (an error must not be masked by a warning)' % (' '.join(extra), [single[i][1] for i in pick], r.returncode, exp_rc),
+                                     file=b''.join(open(single[i][2], 'rb').read() for i in pick).hex(), files=[open(single[i][2], 'rb').read().hex() for i in pick]))
+        if warn:
+            for extra, exp_rc in (([], 2), (['-Q'], 0)):
+                r = sh([xz, '-dc'] + extra + [single[warn[0]][2]]); n_eval += 1
+                if r.returncode != exp_rc: viol.append(dict(why='xz -dc %s on a file with an unverifiable check type: exit %d, expected %d' % (' '.join(extra), r.returncode, exp_rc), file=open(single[warn[0]][2], 'rb').read().hex()))
         for i in keys: os.remove(single[i][2])
         # ---------- sparse files: zero runs around the block size, every sink
         plains = []
